@@ -151,6 +151,11 @@ const HISTORY_EXPRESSIONS: &[&str] = &[
   "{a: {b: x}}.a.b",
   "if x = 1 then {a: 1} else [x]",
   "x in (1, [2..3])",
+  // a key written twice (the later entry wins): as the first and only key so far, after another key, in an iteration body
+  "{a: 1, a: x}",
+  "{a: x, a: a + 1, b: a}",
+  "{b: 1, a: x, a: a + b}",
+  "for i in [1, 2] return {k: i, k: k + x}",
   // evaluations that could leave something behind in the thread or the process (a resolved zone offset, a compiled pattern,
   // the status of a conversion): the same text with other arguments follows or precedes them in the histories
   "date and time(\"2021-03-28T01:30:00@Europe/Warsaw\").time offset",
